@@ -101,6 +101,121 @@ class SimLock:
         self._count = c
 
 
+class SimCondition:
+    """threading.Condition for vector callers: waiting is a scheduling point, never a real block."""
+
+    def __init__(self, lock=None):
+        self._lock = lock if lock is not None else SimLock(reentrant=True)
+        self._waiters = []
+        self.acquire = self._lock.acquire
+        self.release = self._lock.release
+
+    def __enter__(self):
+        self._lock.acquire()
+        return self
+
+    def __exit__(self, *a):
+        self._lock.release()
+
+    def _save(self):
+        if hasattr(self._lock, "_release_save"):
+            return self._lock._release_save()
+        self._lock.release()
+        return None
+
+    def _restore(self, saved):
+        if hasattr(self._lock, "_acquire_restore"):
+            self._lock._acquire_restore(saved)
+        else:
+            self._lock.acquire()
+
+    def wait(self, timeout=None):
+        tok = [False]
+        self._waiters.append(tok)
+        saved = self._save()
+        try:
+            _sim_wait(lambda: tok[0], timeout)
+        finally:
+            self._restore(saved)
+            if tok in self._waiters:
+                self._waiters.remove(tok)
+        return tok[0]
+
+    def wait_for(self, predicate, timeout=None):
+        result = predicate()
+        while not result:
+            if not self.wait(timeout) and timeout is not None:
+                return predicate()
+            result = predicate()
+        return result
+
+    def notify(self, n=1):
+        for tok in self._waiters[:n]:
+            tok[0] = True
+        del self._waiters[:n]
+
+    def notify_all(self):
+        self.notify(len(self._waiters))
+
+
+class SimEvent:
+    def __init__(self):
+        self._flag = False
+
+    def is_set(self):
+        return self._flag
+
+    def set(self):
+        self._flag = True
+
+    def clear(self):
+        self._flag = False
+
+    def wait(self, timeout=None):
+        _sim_wait(lambda: self._flag, timeout)
+        return self._flag
+
+
+def _sim_wait(done, timeout):
+    """Wait until done() - by yielding the baton when called from a simulated thread, by polling otherwise."""
+    import time as _t
+
+    me = threading.get_ident()
+    sch = _ACTIVE[0]
+    k = sch.tids.get(me) if sch is not None else None
+    if k is None:
+        t0 = _t.monotonic()
+        while not done():
+            if timeout is not None and _t.monotonic() - t0 >= timeout:
+                return
+            _t.sleep(0.0005)
+        return
+    sch.waiting.add(k)
+    try:
+        while not done():
+            if not sch.cond_wait(k):
+                if timeout is not None:
+                    return          # nobody left who could wake us: the timeout elapses
+                sch.deadlocks.append((k, None, sch.opidx[k]))
+                raise RuntimeError("vecsim: deadlock - waiting for a notification nobody is left to send")
+    finally:
+        sch.waiting.discard(k)
+
+
+def _cond_factory(real, sim):
+    def make(*a, **kw):
+        try:
+            mod = sys._getframe(1).f_globals.get("__name__", "")
+        except Exception:
+            mod = ""
+        if mod == "vector" or mod.startswith("vector."):
+            return sim(*a, **kw)
+        return real(*a, **kw)
+
+    make._vecsim = True
+    return make
+
+
 def _lock_factory(real, reentrant):
     def make(*a, **kw):
         try:
@@ -123,6 +238,8 @@ def install_lock_seam():
     f1._vecsim = f2._vecsim = True
     threading.Lock = f1
     threading.RLock = f2
+    threading.Condition = _cond_factory(threading.Condition, SimCondition)
+    threading.Event = _cond_factory(threading.Event, SimEvent)
 
 
 _vec_cache: dict = {}
@@ -348,6 +465,7 @@ class Scheduler:
         self.blocked = set()     # threads sitting in a real blocking call (never chosen as switch targets)
         self.nlockwaits = 0
         self.deadlocks = []
+        self.waiting = set()
         self.nops_done = 0
         self.trace: list = []
         self.errors: list = []
@@ -463,6 +581,25 @@ class Scheduler:
             return
         nxt = owner if owner in others else others[0]
         self._switch(k, nxt, K_BLOCK, "lock")
+
+    def cond_wait(self, k):
+        """Thread k waits for a notification: yield to a thread that is not itself waiting.  False if there is none."""
+        self.npoints += 1
+        self.nlockwaits += 1
+        others = [j for j in range(self.n) if j != k and not self.finished[j] and j not in self.blocked]
+        active = [j for j in others if j not in self.waiting]
+        if not active:
+            if others:
+                # only waiters left besides us: let them re-check once (a notification may just have been sent)
+                self._spins = getattr(self, "_spins", 0) + 1
+                if self._spins < 4 * self.n:
+                    self._switch(k, others[0], K_BLOCK, "wait")
+                    return True
+            self._spins = 0
+            return False
+        self._spins = 0
+        self._switch(k, active[0], K_BLOCK, "wait")
+        return True
 
     def op_begin(self, k, i):
         self.opidx[k] = i
